@@ -327,6 +327,53 @@ func c08ParseLong(name string) *Program {
 	panic("unknown long program " + name)
 }
 
+// ---- argument names that coincide with the callee's parameter names, and match bindings read after a
+// recursive call returned (laws on the implementation alone; results computed by hand)
+
+var c08Bindings = []struct{ prog, want string }{
+	{"function sw(a, b, n) { if (n == 0) { return [a, b] } return sw(b, a, 0) } BEGIN { print sw(1, 2, 1), sw(1, 2, 0) }", "[2, 1] [1, 2]\n"},
+	{"function rot(a, b, c, n) { if (n <= 0) { return [a, b, c] } m = n - 1; return rot(b, c, a, m) } BEGIN { print rot(1, 2, 3, 1), rot(1, 2, 3, 2), rot(1, 2, 3, 3) }", "[2, 3, 1] [3, 1, 2] [1, 2, 3]\n"},
+	{"function pair(a, b) { return [a, b] } function caller(a, b) { return pair(b, a) } BEGIN { print caller(1, 2), caller('x', [3]) }", "[2, 1] [[3], \"x\"]\n"},
+	{"function pair(a, b) { return [a, b] } BEGIN { a = 1; b = 2; print pair(b, a), pair(a, b), pair(b, b) }", "[2, 1] [1, 2] [2, 2]\n"},
+	{"function pair(a, b) { return [a, b] } BEGIN { print match ([1, 2]) { [a, b] => pair(b, a) } }", "[2, 1]\n"},
+	{"function pair(a, b) { return [a, b] } { print pair($.b, $.a) } ", "[2, 1]\n"},
+	{"function gcd(a, b) { if (b == 0) { return a } if (a < b) { return gcd(b, a) } r = a % b; return gcd(b, r) } BEGIN { print gcd(4, 6), gcd(6, 4), gcd(35, 14), gcd(14, 35) }", "2 2 7 7\n"},
+	{"function f(a, b, c) { return a + '-' + b + '-' + c } function g(c, a, b) { return f(a, b, c) } BEGIN { print g(1, 2, 3), f(1, 2, 3) }", "2-3-1 1-2-3\n"},
+	{"function f(a, b) { return a * 10 + b } function g(b, a) { return f(a, b) + f(b, a) } BEGIN { print g(1, 2) }", "33\n"},
+	{"function f(a, b) { return a * 10 + b } function g(b, a) { for (i = 0; i < 3; i++) { t = t + f(b, a) } return t } BEGIN { print g(1, 2) }", "36\n"},
+	{"function third(a, b, c) { return c } function g(c, b, a) { return third(c, b, a) + third(a, b, c) * 10 + third(b, c, a) * 100 } BEGIN { print g(1, 2, 3) }", "313\n"},
+	{"function sumr(l) { return match (l) { [h, t] => sumr(t) + h, other => 0 } } BEGIN { print sumr([1, [2, [3, null]]]), sumr([5, null]), sumr(null) }", "6 5 0\n"},
+	{"function suml(l) { return match (l) { [h, t] => h + suml(t), other => 0 } } BEGIN { print suml([1, [2, [3, null]]]) }", "6\n"},
+	{"function walk(t) { match (t) { [l, v, r] => { walk(l); print v; walk(r) } } } BEGIN { walk([[null, 1, null], 2, [[null, 3, null], 4, null]]) }", "1\n2\n3\n4\n"},
+	{"function show(l) { return match (l) { [h, t] => show(t) + '<' + h, other => '.' } } BEGIN { print show(['a', ['b', ['c', null]]]) }", ".<c<b<a\n"},
+	{"function ev(l) { return match (l) { [h, t] => od(t) + h, other => 0 } } function od(l) { return match (l) { [h, t] => ev(t) - h, other => 0 } } BEGIN { print ev([1, [2, [3, [4, null]]]]) }", "-2\n"},
+	{"function cnt(l) { return match (l) { [h, t] => { n = cnt(t); return n + h }, other => 0 } } BEGIN { print cnt([10, [20, [30, null]]]) }", "60\n"},
+	{"function f(n) { return match (n) { 0 => 'z', k => f(k - 1) + k } } BEGIN { print f(4) }", "z1234\n"},
+	{"function f(n, acc) { if (n == 0) { return acc } return f(n - 1, acc + n) } BEGIN { print f(4, 0), f(100, 0) }", "10 5050\n"},
+	{"function each(l, k) { return match (l) { [h, t] => each(t, k) + h * k, other => 0 } } BEGIN { print each([1, [2, null]], 3), each([1, [2, null]], 5) }", "9 15\n"},
+	{"function two(l) { return match (l) { [a, b] => match (a) { [c, d] => two(b) + c + d, other => two(b) + a }, other => 0 } } BEGIN { print two([[1, 2], [3, [[4, 5], null]]]) }", "15\n"},
+	{"function last(l) { return match (l) { [h, t] => match (last(t)) { null => h, found => found }, other => null } } BEGIN { print last([1, [2, [3, null]]]), last([7, null]) }", "3 7\n"},
+	{"function rev(l, acc) { return match (l) { [h, t] => rev(t, [h, acc]), other => acc } } BEGIN { print rev([1, [2, [3, null]]], null) }", "[3, [2, [1, null]]]\n"},
+	{"function zip(p, q) { return match ([p, q]) { [[a, x], [b, y]] => [[a, b], zip(x, y)], other => null } } BEGIN { print zip([1, [2, null]], ['a', ['b', null]]) }", "[[1, \"a\"], [[2, \"b\"], null]]\n"},
+	{"{ r = match ($.pair) { [a, b] => [b, a] } print r; print match (r) { [a, b] => a - b } }", "[2, 1]\n1\n"},
+}
+
+func c08BindingRun(c *Case, k int) {
+	b := c08Bindings[k]
+	lib := RunLib(b.prog, []InFile{{Name: "in.json", Data: []byte(`{"a": 1, "b": 2, "pair": [1, 2]}`)}}, nil, RunOpts{Budget: 500000})
+	c.NonTrivial("binding:" + b.prog)
+	c.Count("binding_programs")
+	want := b.want
+	if !strings.Contains(b.prog, "BEGIN") || strings.HasPrefix(b.prog, "{") {
+		// pattern-rule programs run once for the one input value
+	}
+	if lib.Class == "ok" && string(lib.Stdout) == want {
+		c.Held()
+		return
+	}
+	c.Violation(fmt.Sprintf("positional binding / match bindings across recursion: want %q, got %s (%s) %q | program: %s", want, lib.Class, lib.Msg, clip(string(lib.Stdout), 80), b.prog), nil, map[string]any{"program": b.prog})
+}
+
 // ---- refusal depth of runaway recursion must not depend on completed history
 
 var c08Runaway = []struct{ name, funcs, call string }{
@@ -403,7 +450,7 @@ func c08MissingArgs(c *Case) {
 }
 
 func c08Cases(tier string) int {
-	base := len(c08LongProgs) + len(c08Runaway)
+	base := len(c08LongProgs) + len(c08Runaway) + len(c08Bindings)
 	if tier == "thorough" {
 		return base + len(c08LongProgs)*4 + 1500000
 	}
@@ -421,8 +468,10 @@ func c08Run(c *Case) {
 		if i == nl {
 			c08MissingArgs(c)
 		}
-	case c.Tier == "thorough" && i < nl+len(c08Runaway)+nl*4:
-		j := i - nl - len(c08Runaway)
+	case i < nl+len(c08Runaway)+len(c08Bindings):
+		c08BindingRun(c, i-nl-len(c08Runaway))
+	case c.Tier == "thorough" && i < nl+len(c08Runaway)+len(c08Bindings)+nl*4:
+		j := i - nl - len(c08Runaway) - len(c08Bindings)
 		c08LongRun(c, c08LongProgs[j%nl], []int{4097, 9000, 20000, 50000}[j/nl])
 	default:
 		g := &funcGen{rng: c.Rng, stats: map[string]int{}}
@@ -445,7 +494,7 @@ func c08Run(c *Case) {
 			c.CountN("impl_frame_pops", r.Lib.Pops)
 			c.CountN("impl_rule_starts_checked_by_M4", r.Lib.RuleStarts["pattern"]+r.Lib.RuleStarts["BEGIN"]+r.Lib.RuleStarts["END"])
 		}
-		if i == nl+len(c08Runaway)+nl*4 || (c.Tier == "quick" && i == nl+len(c08Runaway)) {
+		if i == nl+len(c08Runaway)+len(c08Bindings)+nl*4 || (c.Tier == "quick" && i == nl+len(c08Runaway)+len(c08Bindings)) {
 			c.Sample(map[string]any{"program": text})
 		}
 	}
@@ -454,7 +503,7 @@ func c08Run(c *Case) {
 func init() {
 	register(&Prop{
 		ID: "C08", Level: "exploration",
-		Rule:          "sampled: programs with 1-4 generated functions (arity 0-4, called with too few / exact / too many arguments in every expression position, parameter reassignment, callee locals, global updates, container parameters with element stores, returns from loops and match blocks, nested calls) plus a recursion library (fact, fib, mutual even/odd, ackermann, sumto up to depth 900); after every call the caller prints its own state and probes every callee name with `is unknown`; trace vs reference model, plus the frame automaton M4 (depth at each rule start equals the baseline). Enumerated: 8 long-history programs over 10000 elements (thorough: up to 50000) whose result is compared with the model, and 5 runaway-recursion shapes whose refusal depth must be identical after 0/1/10/5000 completed calls and after one completed recursion 3000 deep. Non-trivial = >= 3 calls and an arity mismatch or recursion; long runs and probes count as non-trivial.",
+		Rule:          "sampled: programs with 1-4 generated functions (arity 0-4, called with too few / exact / too many arguments in every expression position, parameter reassignment, callee locals, global updates, container parameters with element stores, returns from loops and match blocks, nested calls) plus a recursion library (fact, fib, mutual even/odd, ackermann, sumto up to depth 900); after every call the caller prints its own state and probes every callee name with `is unknown`; trace vs reference model, plus the frame automaton M4 (depth at each rule start equals the baseline). Enumerated: 8 long-history programs over 10000 elements (thorough: up to 50000) whose result is compared with the model, and 5 runaway-recursion shapes whose refusal depth must be identical after 0/1/10/5000 completed calls and after one completed recursion 3000 deep. 25 programs (results computed by hand) in which argument names coincide with the callee's parameter names in another order (swap, rotate, through match bindings, globals, document fields) or match bindings are read after a recursive call through the same match returned (sums, tree walks, mutual recursion, nested matches). Non-trivial = >= 3 calls and an arity mismatch or recursion; long runs and probes count as non-trivial.",
 		NumCases:      c08Cases,
 		Run:           c08Run,
 		MinConclusive: func(tier string) int { return 3000 },
